@@ -186,6 +186,23 @@ class Loader:
         if i1 is None:
             raise core.Inconclusive("slice anchor (last) not found in %s.%s" % (modname, fname))
         stmts = body[i0:i1 + 1]
+        # backward slice: a free variable of the range that an *earlier simple assignment* of the same function defines
+        # (e.g. `width = max(in_window, out_window)`) is defined by prepending that assignment
+        m_globals = set(self.load(modname).__dict__) | set(vars(builtins)) | set(extra_globals or ())
+        for _ in range(4):
+            stored = {n.id for st in stmts for n in ast.walk(st) if isinstance(n, ast.Name) and isinstance(n.ctx, ast.Store)}
+            stored |= {a.arg for st in stmts for n in ast.walk(st) if isinstance(n, (ast.Lambda, ast.FunctionDef)) for a in n.args.args}
+            loads = {n.id for st in stmts for n in ast.walk(st) if isinstance(n, ast.Name) and isinstance(n.ctx, ast.Load)}
+            free = loads - stored - set(params) - m_globals
+            add = []
+            for name_ in sorted(free):
+                for st in reversed(body[:i0]):
+                    if isinstance(st, ast.Assign) and any(isinstance(t, ast.Name) and t.id == name_ for t in st.targets) and st not in stmts and st not in add:
+                        add.append(st)
+                        break
+            if not add:
+                break
+            stmts = sorted(add, key=lambda st: st.lineno) + list(stmts)
         tail = []
         if returns is not None:      # returns=None: the range ends with the function's own return statement
             tail = [ast.Return(value=ast.Tuple(elts=[ast.Name(id=r, ctx=ast.Load()) for r in returns], ctx=ast.Load()))]
